@@ -20,7 +20,7 @@ RULE = ('cells = (column wavelet, row wavelet, mode, J, HxW) with ordered pairs 
 ASSUMPTIONS = ['pywt.wavedec2/waverec2 with a per-axis wavelet tuple is the specification', 'float64']
 TIMEOUT = {'quick': 900, 'thorough': 3000}
 WORKER_BUDGET = {'quick': 600, 'thorough': 2400}
-MIN_HELD = {'quick': 300, 'thorough': 3000}
+MIN_HELD = {'quick': 300, 'thorough': 1500}
 SHAPES = [(8, 12), (9, 16), (16, 10), (13, 7), (6, 11), (12, 5), (7, 8)]
 
 
@@ -28,7 +28,7 @@ def cells(tier, seed):
     rnd = core.rng_for(seed, PROP, tier)
     waves = [w for w in refs.all_wavelets() if refs.flen(w) <= 24]
     out = []
-    n = 220 if tier == 'quick' else 2500
+    n = 220 if tier == 'quick' else 8000
     while len(out) < n:
         wc, wr = rnd.choice(waves), rnd.choice(waves)
         if refs.flen(wc) == refs.flen(wr):
